@@ -21,6 +21,14 @@ A8 = 'A8 toolchains: Verus compiles the extracted text with Rust 1.98.1, Kani wi
 EVAL_FUNCS = 'eval_expr, eval_or_expr, eval_and_expr, eval_eq_expr, eval_relational_expr, eval_add_expr, eval_mul_expr, eval_unary_expr, eval_union_expr, eval_path_expr, eval_filter_expr, eval_primary_expr, eval_filtered_loc_expr, eval_loc_expr, eval_step_expr, eval_axis_node_test, eval_node_test, eval_predicate, eval_func_expr'
 
 PROPS = {
+    'C14': dict(
+        verus_units=['c14_order'],
+        level='proof',
+        trusted_base=TRUSTED_VERUS,
+        assumptions=[A2 + ' (Iterator::position over Weak::upgrade as "first index whose live id matches"; Rc::downgrade)', A4, A5, A6 + '; `version += 1` gets the precondition version < usize::MAX (2^64 edits)', A8],
+        not_decided='that callers keep the keys in pre-order (HasChildren::append / insert_before / delete, append_attribute, subtree moves, init_order_recursive: live graph) and the equivalence of queries on an edited document with queries on its re-parse (evaluator + parser)',
+        explanation='the DocumentOrder layer: get/push/remove/insert_after/insert_before of info/src/lib.rs verified against a sequence-of-live-ids view with the data-structure invariant "no live id twice": the key of a node is 1 + its first index (0 when absent), so keys of present nodes are non-zero and pairwise distinct (lemma), push appends without moving any other key, remove deletes exactly one entry, insert_after/insert_before place the node directly next to the reference node, and a refused call changes nothing',
+    ),
     'C19': dict(
         verus_units=['eval_ctx'],
         level='proof',
@@ -113,12 +121,16 @@ NOT_APPLICABLE = {
     'C08': 'spelling equivalence and precedence are properties of the nom expression grammar (relations between strings), outside both verifiers',
     'C10': 'not decided: the only piece within reach (model::Context::{add_ns,remove_ns,get_ns_uri,expanded_name}) needs symbolic strings, which Kani handles only as a small bounded run (55 s / 4.5 GB for 2 prefixes, measured) and which Verus cannot read (HashMap<String,String> iteration); the document side (in-scope namespaces, xmlns="", attributes, name tests) is live-graph code. The bounded stand-in described in DESIGN §4 was not built, so nothing is claimed',
     'C12': 'the tree invariant quantifies over histories on the aliasing object graph (children vectors vs parent_id via id_map); a ghost-tree proof is a protocol-level invariant beyond this task and Kani cannot build the objects',
-    'C14': 'not decided: pre-order of the keys and query equivalence are whole-tree / evaluator facts outside both verifiers; the DocumentOrder layer (get/push/remove/insert_after/insert_before over Vec<Weak<RefCell<ContextInfo>>>) is within reach of Verus only through opaque-handle shims (DESIGN §4 C14) and that unit was not built, so nothing is claimed',
     'C15': 'not decided: "the serialization is accepted by the parser" is a statement about the nom grammar; the one-call fragment (validity of the joined string after insert/delete) needs the three nom checkers as specifications, which this technique can only assume (A3), and the unit of DESIGN §4 C15 was not built, so nothing is claimed. Seen with the replay binary, not by a verifier: text "]]" + insert_data(2, ">") succeeds and stores "]]>"',
     'C17': 'the CLIs compose file I/O, both nom grammars, the evaluator, DOM mutation and the printer; nothing in them is a function a contract can isolate',
 }
 
 MANIFEST_TEXT = {
+    'C14': dict(
+        level_text='Proof (Verus, unbounded: all order vectors, ids, dead entries) for the DocumentOrder layer only: keys are 1 + first index of the live id, non-zero and pairwise distinct for present nodes; push/remove/insert_after/insert_before edit the id sequence exactly as specified, keep ids unique, and leave it unchanged when they refuse. The pre-order relation between keys and tree and query equivalence are not decided.',
+        level_note='Trusted: Verus+Z3, extractor, Weak/Rc as opaque handles with a ghost live id (A5), std Iterator::position contract; seven induction lemmas about first-index are proved in the unit. Not decided: every caller that chooses where a node is inserted.',
+        technique='contract-based deductive verification (Verus pre/postconditions over an abstract id sequence with a data-structure invariant, lemmas by induction)',
+        design_ref='DESIGN.md §9'),
     'C19': dict(
         level_text='Proof (Verus, modular over 19 mutually recursive functions + 6 Context methods, all expression shapes and node lists) that every eval_* function of the XPath evaluator returns with the caller\'s context stacks and namespace bindings exactly restored, on Ok and on Err. Context-restoration half of C19 only.',
         level_note='Trusted: Verus+Z3, extractor and rewrite table, std iterator shims, opaque expression/DOM handles (A9, A10); recursion termination not verified (A11); a panic unwinding through the evaluator is outside the contract (that is C06). Not decided: determinism, documents unchanged by queries.',
